@@ -492,7 +492,10 @@ def mut_c05_stale_read(run):
 
 
 def mut_c07_missing(run):
+    """Drop a provider from a query result that no concurrent operation or sweep could excuse."""
     if "cachecap" not in run[0]:
+        return None
+    if any(ev["e"] in ("AddStart", "GetStart") for ev in run) or any(ev["e"] == "DS" and ev.get("actor") == "gc" and ev.get("op") == "delete" for ev in run):
         return None
     for i, ev in enumerate(run):
         if ev["e"] == "Get" and ev["provs"] and not ev["closed"]:
@@ -595,6 +598,6 @@ def selftest_mutations(prop, drv, trace_path):
             if m is not None:
                 out.append((fn.__name__, m))
                 got += 1
-                if got >= 4:
+                if got >= 6:
                     break
     return out
